@@ -186,6 +186,7 @@ func (vc *VC) generate() {
 		}
 	}
 	vc.assumeGlobalInvs(f, env)
+	vc.assumeExportedLemmas()
 	if fn.Synthetic == "package initializer" {
 		// the initialiser runs once: its guard is still false
 		if g, ok := fn.Pkg.Members["init$guard"].(*ssa.Global); ok {
@@ -313,3 +314,36 @@ func (vc *VC) assumeGlobalInvs(f *frame, env *Env) {
 }
 
 func (vc *VC) assumptionsNote(s string) { vc.notes[s] = true }
+
+// assumeExportedLemmas: bit-level facts proved as bv lemmas hold for the uninterpreted bit
+// functions of int mode (the same expression, evaluated in int mode, speaks about them).
+func (vc *VC) assumeExportedLemmas() {
+	if vc.mode != ModeInt {
+		return
+	}
+	var names []string
+	for n, c := range vc.specs.Contracts {
+		if c.Kind == "lemma" && c.Export {
+			names = append(names, n)
+		}
+	}
+	sort.Strings(names)
+	for _, n := range names {
+		c := vc.specs.Contracts[n]
+		env := &Env{vc: vc, bound: map[string]TV{}, state: State{}, old: State{}}
+		for _, e := range c.Ensures {
+			func() {
+				defer func() {
+					if r := recover(); r != nil {
+						if _, ok := r.(specError); ok {
+							return
+						}
+						panic(r)
+					}
+				}()
+				vc.assume(vc.evalBool(e.Expr, env))
+				vc.notes["bit-level lemma "+n+" (proved in bv mode) assumed for the uninterpreted bit functions"] = true
+			}()
+		}
+	}
+}
